@@ -38,6 +38,9 @@ func enumerate(s *Sim, C, maxViews int) []Op {
 			ops = append(ops, Op{Kind: "append", V: vi, W: wi})
 		}
 		ops = append(ops, Op{Kind: "write", V: vi, A: v.ln + 1})
+		if v.ln%v.c == 0 && v.ln > 0 {
+			ops = append(ops, Op{Kind: "writeStriped", V: vi, A: v.ln / v.c, B: 1})
+		}
 		if v.ln > 0 {
 			ops = append(ops, Op{Kind: "set", V: vi, A: 0})
 			if v.ln > 1 {
@@ -163,7 +166,7 @@ func decode(data []byte) *Case {
 	C := 1 + int(data[1])%3
 	k0 := int(data[2]) % 5
 	c.Ops = append(c.Ops, Op{Kind: "alloc", C: C, A: int(data[2]>>4) % (k0 + 1), B: k0})
-	kinds := []string{"alloc", "slice", "appendSample", "append", "write", "set", "drop", "slice"}
+	kinds := []string{"alloc", "slice", "appendSample", "append", "write", "set", "drop", "writeStriped"}
 	for i := 3; i+1 < len(data) && len(c.Ops) < 64; i += 2 {
 		a, b := int(data[i]), int(data[i+1])
 		op := Op{Kind: kinds[a%8], V: (a >> 3) % 6}
@@ -177,6 +180,8 @@ func decode(data []byte) *Case {
 			op.W = b % 6
 		case "write":
 			op.A = b % 16
+		case "writeStriped":
+			op.A, op.B = b%6, b>>4
 		case "set":
 			op.A = b
 		}
